@@ -776,6 +776,12 @@ def _section_layout_h5map(ctx: Ctx, res: Result, n_layout: int, n_h5: int, use_m
 DS_NAMES = ["a"] * 5 + ["b"] * 4 + ["A-1", "x(1),y"] * 2 + ["a\n", "", "a b", "é", "a/b", "a.b"]
 LABELS = ["lab"] * 6 + ["x"] * 3 + ["lab.2", "A-b_(1),", "lab\n", "", "la b", "é", "..", "a/b"]
 LOOKUP_LABELS = ["lab"] * 5 + ["x"] * 3 + ["lab.2", "lab\n", "nolab", ".."]
+# labels that are an underscore-suffix / prefix / substring of one another, with digits and underscores
+LABEL_FAMILIES = [
+    ["scan", "fine_scan", "1_scan", "scan_2", "scan_fine", "can", "sc", "x_scan_y", "120000_scan", "_scan", "scan_"],
+    ["t1", "t1_t1", "1", "1_1", "t", "t1.", "_1", "0_t1", "t1_0"],
+    ["a-b", "b", "a-b_b", "a", "a-b_a-b", "(a-b)", "b,", ",b"],
+]
 DATES = ["20240101"] * 4 + ["20240102"] * 3 + ["20231231"] * 2 + ["99991231", "00000101", "20240101\n", "2024010", "202401011", "2024010a", "２０２４０１０１"]
 TIMES = ["120000"] * 4 + ["120001"] * 2 + ["000000", "235959"] * 2 + ["120000\n", "12000", "1200000", "12000x"]
 
@@ -903,16 +909,18 @@ class _Clock:
 def _gen_store_ops(rng, n: int) -> list:
     ops = []
     clock = 1700000000.0
+    fam = rng.choice([None] + LABEL_FAMILIES)
+    LABELS_, LOOKUP_ = (LABELS, LOOKUP_LABELS) if fam is None else (fam * 2 + ["lab\n", "", "a/b"], fam + ["nolab"])
     for _ in range(n):
         r = rng.random()
         if r < 0.08:
             ops.append(["addfile", rng.choice(["20240103", "20231230", "20240102", "notes.txt"])])
         elif r < 0.2:
-            ops.append(["addchild", rng.choice(DATES[:11]), rng.choice(TIMES[:10]) + "_" + rng.choice(LABELS[:10]) if rng.random() < 0.8
+            ops.append(["addchild", rng.choice(DATES[:11]), rng.choice(TIMES[:10]) + "_" + rng.choice(LABELS_[:10]) if rng.random() < 0.8
                         else rng.choice(["junk", "120000", "120000_", "1200_lab", "120000-lab"]), int(rng.random() < 0.7)])
         elif r < 0.6:
             k = rng.random()
-            lab = rng.choice(LABELS)
+            lab = rng.choice(LABELS_)
             if k < 0.55:
                 ops.append(["mk", lab, None, rng.choice(DATES), rng.choice(TIMES), clock])
             elif k < 0.75:
@@ -924,7 +932,7 @@ def _gen_store_ops(rng, n: int) -> list:
             else:
                 ops.append(["mk", lab, rng.choice([None, 1e9]), rng.choice([None, "20240101"]), rng.choice([None, "120000"]), clock])
         else:
-            ops.append(["latest", rng.choice(LOOKUP_LABELS), None if rng.random() < 0.6 else rng.choice(DATES[:12])])
+            ops.append(["latest", rng.choice(LOOKUP_), None if rng.random() < 0.6 else rng.choice(DATES[:12])])
     return ops
 
 
@@ -1047,13 +1055,39 @@ def _shrink_ops(ops: list, bad_sig: str, runner) -> list:
     return ops
 
 
+def _family_histories() -> list:
+    """for every ordered pair of related labels (a, b): b gets the newer folders, a an older one (or none);
+    the lookup for a must return a's own newest folder (resp. None), on the same date and across dates"""
+    out = []
+    for fam in LABEL_FAMILIES:
+        for a in fam[:6]:
+            hist = []
+            t = 100000
+            for b in fam:
+                if b == a:
+                    continue
+                t += 1
+                hist.append(["mk", b, None, "20240102", "%06d" % (t + 10000), 0.0])     # newer, other label, later date
+                hist.append(["mk", b, None, "20240101", "%06d" % (t + 20000), 0.0])     # newer, other label, same date
+            out.append(hist + [["latest", a, None], ["latest", a, "20240101"]])          # none of them is a's
+            own = [["mk", a, None, "20240101", "090000", 0.0], ["mk", a, None, "20240101", "093000", 0.0],
+                   ["mk", a, None, "20231231", "235959", 0.0]]
+            out.append(own[:1] + hist + own[1:] + [["latest", a, None], ["latest", a, "20240101"], ["latest", a, "20240102"],
+                                                  ["latest", a, "20231231"]])
+    return out
+
+
 def _section_store(ctx: Ctx, res: Result, n_folder: int, n_store: int, use_model=True, op_len=(12, 18)):
     rng = ctx.rng
     all_lines, all_outs, spans = [], [], []
+    fixed = _family_histories()
     for kind, n, gen, runner in (("folder", n_folder, _gen_folder_ops, _run_folder_ops),
-                                 ("store", n_store, _gen_store_ops, _run_store_ops)):
+                                 ("store", n_store + len(fixed), _gen_store_ops, _run_store_ops)):
         for i in range(n):
-            ops = gen(rng, rng.randint(3, op_len[0] if kind == "folder" else op_len[1]))
+            if kind == "store" and i < len(fixed):
+                ops = fixed[i]
+            else:
+                ops = gen(rng, rng.randint(3, op_len[0] if kind == "folder" else op_len[1]))
             lines, outs, bad = runner(ops)
             spans.append((len(all_lines), len(lines), kind, ops))
             all_lines += lines
